@@ -135,6 +135,9 @@ pub fn run() -> i32 {
         vec!["module M\ntypealias T = Dictionary<string, Sequence<int32>>\ninterface I { op(p: T) -> T }\n"],
         vec!["module A\ntypealias T = Sequence<bool>\n", "module B\nstruct S { a: A::T }\n"],
         vec!["module M\nstruct S { a: Sequence<bool>, b: Sequence<bool> }\n"],
+        // the alias used as an OPTIONAL type, inside a type written in place, through a second alias, with a `::`-global name
+        vec!["module M\ntypealias T = Sequence<int32>\nstruct S { a: T?, b: Sequence<T>, c: Dictionary<string, T?> }\ninterface I { op(p: T?) -> T? }\n"],
+        vec!["module A\ntypealias T = Result<string, Sequence<bool>>\ntypealias U = T\ntypealias V = ::A::U\n", "module B\nstruct S { a: A::U?, b: ::A::V, c: Sequence<A::V?> }\n"],
     ];
     for prog in &shared {
         let r = std::panic::catch_unwind(|| {
